@@ -170,12 +170,18 @@ Proof. exact twolevel_run. Qed.
 Print Assumptions C09_twolevel_passes.
 
 """
-mk('C09', ['MSTerm'], [C09_runs, lifted('C09_multistage_terminates_partial','MSTerm','mu_decreases','PARTIAL: termination measure of the Multistage machine decreases at every yielded action; the flag theorems (is_exhausted / is_running at every point) are not proved yet: correspondence + oracle')])
+mk('C09', ['MSTerm','OnlineFlags','Flags'], [
+   lifted('C09_flags','Flags','C09_flags','FLAGS, all thirteen classes, every parameter tuple the constructor accepts, every history of next() / finalize(k) requests (ops), any executor parameters: before the first request is_exhausted = is_running = False; after every next() is_running = True; is_exhausted after a request = (the final action of the class has been yielded so far) -- final_action: EndForward for None, EndReverse for the offline classes and SingleDisk(move), none for SingleMemory, SingleDisk(copy), TwoLevel; no action is yielded once the final action has been seen (only StopIteration / an exception), and finalize never changes the flag. flags_hist is the trace rule, defined in Proofs/OnlineFlags.v'),
+   C09_runs,
+   lifted('C09_multistage_flags_on_runs','MultistageRun','multistage_flags','the same rule read on the raise-free Multistage runs of the run theorem (every line: is_running, and is_exhausted = (the action is EndReverse), StopIteration only with is_exhausted)'),
+   lifted('C09_mixed_flags_on_runs','MixBridge','mixed_flags','... and on the Mixed runs'),
+   lifted('C09_multistage_terminates_partial','MSTerm','mu_decreases','PARTIAL: termination measure of the Multistage machine decreases at every yielded action (so the final action is reached); "each further pass is an exact repeat of the first" is covered by executability for every k above, the literal equality of passes by correspondence + oracle')])
 mk('C10', ['BasicProofs'], [lifted('C10_online','BasicProofs','C10_online','online, not finalised: finalize(k) succeeds iff 1 <= k <= n, and then fixes max_n = n = k'),
    lifted('C10_known','BasicProofs','C10_known','max_n known: finalize(k) is a no-op iff k = max_n = n; state unchanged in every case'),
    lifted('C10_reject','BasicProofs','C10_reject','every other call: ValueError if k < 1 else RuntimeError, state unchanged'),
    lifted('C10_next_endforward','BasicProofs','C10_next_endforward','after a successful finalisation in the forward loop the next action is EndForward')])
-mk('C11', ['SchedProofs'], [lifted('C11_uses_never_raises','SchedProofs','uses_never_raises','uses_storage_type never raises, for every StorageType member, in every state')])
+mk('C11', ['SchedProofs','UsesProofs'], [lifted('C11_uses_never_raises','SchedProofs','uses_never_raises','uses_storage_type never raises, for every StorageType member, in every state'),
+   lifted('C11_touch_implies_uses','UsesProofs','touch_implies_uses','if an emitted action writes a checkpoint to RAM / DISK or copies / moves one from or to it, uses_storage_type of that storage is True: every state of the extracted objects of None, SingleMemory, SingleDisk, TwoLevel, Multistage, Mixed (well_built = counts stored in the object are those of its labels / storage is a checkpoint storage); the Revolve family is excluded from well_built (oracle + correspondence only)')])
 mk('C13', ['TLInv'], [C09_runs.split("Theorem C09_twolevel_passes")[0].split("Theorem")[0] + """(* the whole TwoLevel run on the extracted model *)
 Theorem C13_twolevel_run : forall (N P bs : Z) (bst : storage) (tj : traj), 1 <= N -> 1 <= P -> 0 <= bs -> bst = RAM \\/ bst = DISK -> forall k : nat,
   exists o0 m ls, run_case (PTwo P bs bst tj) (ptl N P bs bst) (repeat Next (Z.to_nat (TLBridge.Q N P)) ++ [Fin N] ++ repeat Next (S k)) = Ok (o0, m, ls) /\\ mon_ok m /\\ no_raise ls.
@@ -183,7 +189,8 @@ Proof. exact twolevel_run. Qed.
 Print Assumptions C13_twolevel_run.
 
 """, lifted('C13_block_total_partial','TLInv','block_total','PARTIAL: per-block forward total on the TwoLevel machine of TLInv.v (= T (L, b+1) with T the work of the binomial recursion); not yet restated on the extracted model')])
-mk('C14', ['TopK','AllocProofs'], [lifted('C14_construct_labels','AllocProofs','construct_labels','the labels of a constructed Multistage schedule: all RAM or DISK, min(ram+disk, N-1) of them, at most min(ram, N-1) RAM and at most min(disk, N-1) DISK'),
+mk('C14', ['TopK','AllocProofs','SplitProofs'], [lifted('C14_labels_only','SplitProofs','C14_labels_only','first clause: two Multistage configurations with the same max_n, trajectory and number of labels produce the same stream up to the storage named in checkpoint actions (erase_out forgets RAM/DISK), from every state and for every number of requests'),
+   lifted('C14_construct_labels','AllocProofs','construct_labels','the labels of a constructed Multistage schedule: all RAM or DISK, min(ram+disk, N-1) of them, at most min(ram, N-1) RAM and at most min(disk, N-1) DISK'),
    lifted('C14_alloc_labels_facts','AllocProofs','alloc_labels_facts','exactly min(ram, #positions) positions are labelled RAM'),
    lifted('C14_topk_max_partial','TopK','topk_max','PARTIAL: the first k of a descending list maximise the sum over all k-sub-multisets; the glue (weights = access counts of the stream; labels-only simulation) is not proved')])
 mk('C15', ['MemoCoh','SchedProofs'], [lifted('C15_memo_warm_planC','MemoCoh','memo_warm_planC','the memoised planner as the extracted iterator uses it (cache warmed by an arbitrary earlier call) returns the canonical plan for every sub-problem'),
